@@ -280,8 +280,8 @@ def all_subsets(n):
 
 def evaluate(ctx, deep):
     rng = ctx.rng
-    nmax_all = 10 if deep else 8        # every subset x every family up to here
-    nmax = 12 if deep else 10           # every subset, rotating families above
+    nmax_all = 9 if deep else 8        # every subset x every family up to here
+    nmax = 11 if deep else 10           # every subset, rotating families above
     for n in range(2, nmax + 1):
         subsets = list(all_subsets(n))
         for si, part in enumerate(subsets):
